@@ -964,6 +964,8 @@ def case_git_worktree(acc: Acc, scenario, version):
 
 
 SLOTS = {"ancestor": 1, "this": 2, "other": 3}
+EDIT_OPS = ("noop", "resolve", "swap", "rotate", "rewrap", "promote-copy", "promote-move", "drop", "shift", "dup", "conflict-from",
+            "self-conflict", "skip", "skip-stage", "valid", "copy", "rename", "delete", "replace-fresh")
 
 
 def _clone(e, name=None, stage=None, valid=None, xflags=None):
@@ -1697,7 +1699,7 @@ def run(ctx):
             "distinct_nontrivial = distinct structural classes (family x version x entry count x name-length class x strip class x "
             "stages x flags x extensions x trailer) observed." % (
                 len(SHORT + MID + LONG), [hex(v) for v in INT_VALUES], [oct(m) for m in MODES], len(TIMES), len(EXT_LISTS),
-                len([k for k in fam if k.startswith("D.")]))
+                len(EDIT_OPS), len([k for k in fam if k.startswith("D.")]))
         ),
         exhaustive=True,
         bounds={"families": fam, "name_subset_size": 3 if q else 4, "damage_mutants_by_kind": dcount,
